@@ -183,10 +183,18 @@ pub fn worker_case(case: &str) -> String {
         let Some(o) = parse_obj(&mut it) else { return "bad-case".into() };
         doc.objects.insert((n, g), o);
     }
-    let ids: Vec<ObjectId> = doc.page_iter().collect();
+    // the iterator is polled by hand and then AGAIN after it has answered None (it claims FusedIterator): an exhausted
+    // enumeration stays exhausted — no further ids, no panic, no loop
+    let mut it = doc.page_iter();
+    let mut ids: Vec<ObjectId> = vec![];
+    while let Some(p) = it.next() { ids.push(p); }
+    let again = (0..4).filter(|_| it.next().is_some()).count();
+    drop(it);
+    let collected: Vec<ObjectId> = doc.page_iter().collect();
+    let fused = again == 0 && collected == ids;
     let pages: Vec<(u32, ObjectId)> = doc.get_pages().into_iter().collect();
     let numbered: Vec<(u32, ObjectId)> = ids.iter().enumerate().map(|(i, id)| ((i + 1) as u32, *id)).collect();
-    format!("{} {} M{}", reply(&ids), if pages == numbered { "num" } else { "NUM" }, pages.iter().map(|(k, (n, g))| format!(" {}={}_{}", k, n, g)).collect::<String>())
+    format!("{} {} {} M{}", reply(&ids), if pages == numbered { "num" } else { "NUM" }, if fused { "fused" } else { "REPOLL" }, pages.iter().map(|(k, (n, g))| format!(" {}={}_{}", k, n, g)).collect::<String>())
 }
 
 /// number of cases that did not return (timeout / abort); after a few the campaign stops early —
@@ -205,8 +213,8 @@ fn run_real_map(doc: &Document) -> Result<(Vec<ObjectId>, bool, String), (String
         let t: Vec<&str> = rest.split(' ').collect();
         let n: usize = t[0].parse().unwrap_or(0);
         let ids: Vec<ObjectId> = t[1..1 + n].iter().filter_map(|x| { let (a, b) = x.split_once('_')?; Some((a.parse().ok()?, b.parse().ok()?)) }).collect();
-        let map: Vec<&str> = t.iter().skip(1 + n + 2).cloned().collect();
-        Ok((ids, t.get(1 + n) == Some(&"num"), format!("ok {}{}", map.len(), map.iter().map(|m| format!(" {}", m)).collect::<String>())))
+        let map: Vec<&str> = t.iter().skip(1 + n + 3).cloned().collect();
+        Ok((ids, t.get(1 + n) == Some(&"num") && t.get(1 + n + 1) == Some(&"fused"), format!("ok {}{}", map.len(), map.iter().map(|m| format!(" {}", m)).collect::<String>())))
     } else if out.starts_with("panic") { let site = out.split(' ').nth(1).unwrap_or("?").to_string(); Err((site, out)) }
     else { Err((out.split(' ').next().unwrap_or("?").to_string(), out)) }
 }
@@ -285,7 +293,7 @@ fn check_valid(c: &mut Ctx, r: &mut Rng, t: &T, stream: &str) {
                     json!({"request": req, "expected": reply(&leaves), "actual": reply(&it), "height": height(t)}));
             }
             if !num_ok {
-                c.oracle_fail("numbering", "get_pages is not the enumeration numbered 1..n", json!({"request": req}));
+                c.oracle_fail("numbering", "get_pages is not the enumeration numbered 1..n, or the exhausted iterator yields again / differs from collect()", json!({"request": req}));
             }
             c.sample(json!({"stream": stream, "height": height(t), "leaves": leaves.len(), "request": if req.len() < 400 { req } else { format!("{}…", &req[..400]) }}));
         }
@@ -313,7 +321,7 @@ fn check_any(c: &mut Ctx, doc: &Document, stream: &str) {
                 }
             }
             if !num_ok {
-                c.oracle_fail("numbering", "get_pages is not page_iter numbered 1..n", json!({"request": req}));
+                c.oracle_fail("numbering", "get_pages is not page_iter numbered 1..n, or the exhausted iterator yields again / differs from collect()", json!({"request": req}));
             }
             if !it.is_empty() { c.count(&format!("{}.yielded_some", stream)); }
         }
